@@ -208,6 +208,12 @@ func TestC15(t *testing.T) {
 		Payload  drv.Hex `json:"payload"`
 		Append   bool    `json:"append"`
 		Junk     byte    `json:"junk"` // pre-existing buffer content
+		// the same header completed again (new length / protocol), as when a buffer is re-used for the next packet
+		Again []struct {
+			Len    int  `json:"len"`
+			Proto  byte `json:"proto"`
+			Append bool `json:"append"`
+		} `json:"again,omitempty"`
 	}
 	genIP4 := func(t *rapid.T) string {
 		var a [4]byte
@@ -232,8 +238,16 @@ func TestC15(t *testing.T) {
 		for i := range p {
 			p[i] = byte(drv.Mix(seed + uint64(i)))
 		}
-		return ip4Case{TTL: rapid.Byte().Draw(t, "ttl"), Src: genIP4(t), Dst: genIP4(t), Proto: rapid.Byte().Draw(t, "proto"),
+		c := ip4Case{TTL: rapid.Byte().Draw(t, "ttl"), Src: genIP4(t), Dst: genIP4(t), Proto: rapid.Byte().Draw(t, "proto"),
 			Payload: p, Append: rapid.Bool().Draw(t, "append"), Junk: rapid.Byte().Draw(t, "junk")}
+		for k := rapid.IntRange(0, 3).Draw(t, "nagain"); k > 0; k-- {
+			c.Again = append(c.Again, struct {
+				Len    int  `json:"len"`
+				Proto  byte `json:"proto"`
+				Append bool `json:"append"`
+			}{rapid.OneOf(rapid.IntRange(0, 40), rapid.IntRange(0, 1480)).Draw(t, "alen"), rapid.Byte().Draw(t, "aproto"), rapid.Bool().Draw(t, "aappend")})
+		}
+		return c
 	}, func(tb drv.TB, c ip4Case) {
 		rec.Eval()
 		buf := make([]byte, packet.EthMaxSize)
@@ -253,7 +267,23 @@ func TestC15(t *testing.T) {
 				copy(buf[14+20:], c.Payload) // SetPayload does not copy: the payload is already in place
 				ip = ip.SetPayload(buf[14+20:14+20+len(c.Payload)], c.Proto)
 			}
-			hdr = ip[:20]
+			hdr = append([]byte(nil), ip[:20]...)
+			for _, a := range c.Again {
+				if !ref.Verifies(ip[:20]) {
+					return // reported below through hdr
+				}
+				pl := make([]byte, a.Len)
+				h20 := ip[:20:cap(ip)]
+				if a.Append {
+					var err error
+					if ip, err = h20.AppendPayload(pl, a.Proto); err != nil {
+						panic("AppendPayload: " + err.Error())
+					}
+				} else {
+					ip = h20.SetPayload(buf[14+20:14+20+a.Len], a.Proto)
+				}
+				hdr = append([]byte(nil), ip[:20]...)
+			}
 		})
 		if p != nil {
 			rec.Violation(tb, "ip4-header", sig, c, "IPv4 encode panicked: %v", p)
